@@ -360,22 +360,22 @@ Qed.
 
 (* a marked cell k (position i in the marked list) is replaced by [t0, mid_i] and [mid_i, t1] at the positions
    nn + i and nn + nm + i, and mid_i = nv + i carries the mean of the cell's vertices *)
-Theorem line_adaptive_marked p t marked k i :
+Theorem line_adaptive_marked base p t marked k i :
   index_of k marked = Some i ->
   let nn := length (nonmarked (length t) marked) in
-  let r := line_adaptive p t marked in
-  let mid := S (tab_max t) + i in
+  let r := line_adaptive base p t marked in
+  let mid := base + i in
   nth (nn + i) (snd r) [] = [nth 0 (nth k t []) 0; mid] /\
   nth (nn + length marked + i) (snd r) [] = [mid; nth 1 (nth k t []) 0] /\
-  (S (tab_max t) = length p -> nth mid (fst r) [] = ent_mean 1 p (nth k t [])).
+  (base = length p -> nth mid (fst r) [] = ent_mean 1 p (nth k t [])).
 Proof.
   intros Hi nn r mid. destruct (index_of_nth _ _ _ Hi) as [Hk Hlt].
   unfold r, line_adaptive. cbn [fst snd]. fold nn.
   assert (Hnn : length (map (fun k0 => nth k0 t []) (nonmarked (length t) marked)) = nn) by now rewrite map_length.
-  assert (Hc : nth i (combine marked (map (fun i0 => S (tab_max t) + i0) (seq 0 (length marked)))) (0, 0)
+  assert (Hc : nth i (combine marked (map (fun i0 => base + i0) (seq 0 (length marked)))) (0, 0)
                = (k, mid)).
-  { rewrite (nth_combine_seq marked (fun i0 => S (tab_max t) + i0) i 0 Hlt). now rewrite Hk. }
-  assert (Hcl : length (combine marked (map (fun i0 => S (tab_max t) + i0) (seq 0 (length marked)))) = length marked).
+  { rewrite (nth_combine_seq marked (fun i0 => base + i0) i 0 Hlt). now rewrite Hk. }
+  assert (Hcl : length (combine marked (map (fun i0 => base + i0) (seq 0 (length marked)))) = length marked).
   { rewrite combine_length, map_length, seq_length. lia. }
   split; [|split].
   - rewrite app_nth2 by lia. rewrite Hnn. replace (nn + i - nn) with i by lia.
@@ -434,10 +434,10 @@ Lemma nonmarked_NoDup nt marked : NoDup (nonmarked nt marked).
 Proof. unfold nonmarked. apply NoDup_filter, seq_NoDup. Qed.
 
 (* an unmarked cell keeps its vertices and moves to its rank among the unmarked cells *)
-Theorem line_adaptive_unmarked p t marked k :
+Theorem line_adaptive_unmarked base p t marked k :
   k < length t -> index_of k marked = None ->
   match line_children (length t) marked k with
-  | [c] => nth c (snd (line_adaptive p t marked)) [] = nth k t []
+  | [c] => nth c (snd (line_adaptive base p t marked)) [] = nth k t []
   | _ => False
   end.
 Proof.
